@@ -273,3 +273,75 @@ def table(spec: dict, which: str = 'a') -> dict:
     """the presented table: column -> list of values, in presentation order"""
     pres = spec['pres_' + which]
     return {c: [spec['canon'][c][p] for p in pres] for c in spec['columns']}
+
+
+# ---- history-shaped cases: one BIOGEME object through a sequence of public calls -----------------
+HISTORY_OPS = ['simulate', 'loglike', 'estimate', 'estimate_bootstrap', 'quick_estimate']
+DIRECTED_HISTORIES = [
+    ['simulate', 'estimate_bootstrap', 'simulate', 'simulate'],
+    ['estimate_bootstrap', 'loglike', 'simulate', 'loglike'],
+    ['estimate_bootstrap', 'estimate', 'simulate'],
+    ['loglike', 'estimate', 'simulate', 'estimate_bootstrap', 'quick_estimate', 'simulate'],
+]
+
+
+def make_history(seed, index: int, tier: str = 'quick') -> dict:
+    """A binary-logit panel model (bounded parameters, optional random coefficient under MonteCarlo)
+    on a generated panel table, plus a sequence of operations applied to ONE BIOGEME object."""
+    r = random.Random(f'c09h/{seed}/{index}')
+    ni = r.randint(2, 12)
+    sizes = [1 if r.random() < 0.3 else r.randint(2, 5) for _ in range(ni)]
+    if all(t == 1 for t in sizes):
+        sizes[0] = 3
+    n = sum(sizes)
+    ids, style = _ids(r, ni)
+    blocks = []
+    k = 0
+    for t in sizes:
+        blocks.append(list(range(k, k + t)))
+        k += t
+    idcol = r.choice(ID_NAMES)
+    xs = [round(r.gauss(0, 1), 3) for _ in range(n)]
+    ys = [float(r.random() < 1 / (1 + math.exp(-(0.3 + 0.8 * x)))) for x in xs]
+    if len(set(ys)) == 1:
+        ys[0] = 1.0 - ys[0]
+    id_of_row = []
+    for j, t in enumerate(sizes):
+        id_of_row += [ids[j]] * t
+    cols = ['X', 'Y']
+    cols.insert(r.randrange(3), idcol)
+    canon = {'X': xs, 'Y': ys, idcol: id_of_row}
+    mc = r.random() < 0.3
+    draws = {}
+    ndraws = 0
+    util = ['add', ['beta', 'asc'], ['mul', ['beta', 'b_x'], ['var', 'X']]]
+    betas = {'asc': [0.0, 0], 'b_x': [0.0, 0]}
+    bounds = {'asc': [-5.0, 5.0], 'b_x': [-5.0, 5.0]}
+    if mc:
+        ndraws = r.choice([2, 3, 5])
+        kind = r.choice(DRAW_KINDS)
+        draws = {'xi': kind}
+        betas['s_x'] = [0.5, 0]
+        bounds['s_x'] = [-3.0, 3.0]
+        util = ['add', util, ['mul', ['mul', ['beta', 's_x'], ['draws', 'xi', kind]], ['var', 'X']]]
+    p1 = ['div', ['num', 1.0], ['add', ['num', 1.0], ['exp', ['neg', util]]]]
+    prob = ['add', ['mul', ['var', 'Y'], p1], ['mul', ['sub', ['num', 1.0], ['var', 'Y']], ['sub', ['num', 1.0], copy.deepcopy(p1)]]]
+    traj = ['panel', prob]
+    P = ['mc', traj] if mc else traj
+    if isinstance(seed, str) and seed == 'directed':
+        ops = list(DIRECTED_HISTORIES[index % len(DIRECTED_HISTORIES)])
+    else:
+        ops = [r.choice(HISTORY_OPS) for _ in range(r.randint(3, 6))]
+        if 'estimate_bootstrap' not in ops and r.random() < 0.6:
+            ops.insert(r.randrange(len(ops)), 'estimate_bootstrap')
+        ops.append('simulate')
+    # parameter values used by the explicit simulate / loglike operations (one set per operation)
+    values = [{nm: round(r.uniform(-1.0, 1.0), 3) for nm in betas} for _ in ops]
+    return {
+        'mode': 'history', 'sizes': sizes, 'ids': ids, 'id_style': style, 'idcol': idcol, 'columns': cols, 'canon': canon,
+        'blocks': blocks, 'pres_a': _presentation(r, blocks), 'pres_b': _presentation(r, blocks),
+        'index_style': 'range', 'index': list(range(n)), 'inner': prob, 'formulas': {'P': P, 'logP': ['log', copy.deepcopy(P)]},
+        'shared': [], 'betas': betas, 'bounds': bounds, 'eval_betas': {k: v[0] for k, v in betas.items()},
+        'mc': mc, 'ndraws': ndraws, 'draws': draws, 'threads': r.choice([1, 1, 2, 3]), 'remove': None,
+        'ops': ops, 'op_values': values, 'bootstrap_samples': r.choice([1, 2, 3]), 'max_iterations': r.choice([5, 15, 40]),
+    }
